@@ -2,6 +2,9 @@ module verifharness
 
 go 1.21
 
-require github.com/muktihari/fit v0.0.0
+require (
+	github.com/muktihari/carto v0.1.1
+	github.com/muktihari/fit v0.0.0
+)
 
 replace github.com/muktihari/fit => /repo
